@@ -145,7 +145,22 @@ def run(ck):
             continue
         # an early return without building the rows: only "both sets empty" leaves nothing to report
         conds = [(c, tv) for c, tv, _ in pa.state.assumptions]
-        empties = {x for c, tv in conds for x in (a1, a2) if c == x and tv is False}
+        def _set_of(c):
+            # the set itself, or its key dictionary (empty exactly when the set is)
+            if c in (a1, a2):
+                return c
+            if c[0] == "app" and c[1] in dict_fns and c[3] and list(dict(c[3]).values())[0] in (a1, a2):
+                return list(dict(c[3]).values())[0]
+            return None
+        flat = []
+        for c, tv in conds:
+            parts = list(c[1]) if c[0] == "and" and tv else [c]
+            for x in parts:
+                t0 = tv
+                while x[0] == "not":
+                    x, t0 = x[1], (not t0)
+                flat.append((x, t0))
+        empties = {_set_of(c) for c, tv in flat if tv is False and _set_of(c) is not None}
         ck.judge(empties == {a1, a2}, "C19.1", short(cmp_fn) + ":early-return", where(cmp_fn, pa.node),
                  "a comparison is cut short only when both sets are empty: with one empty set the other set's alignments are all "
                  "first-only / second-only rows",
@@ -247,6 +262,9 @@ def run(ck):
             len(hv[3][0][1]) == 1 and hv[3][0][1][0][0] == "notin" and hv[3][0][1][0][2] == hps[1] and \
             hv[3][0][1][0][1] == T.mk_idx([x for x in T.subterms(hv[2]) if x[0] == "bv"][0], C(0)) and \
             hv[2] == T.mk_idx([x for x in T.subterms(hv[2]) if x[0] == "bv"][0], C(1))
+        if not okh and any((c0 == hps[1] and tv0 is False) or (c0 == ("not", hps[1]) and tv0 is True) for c0, tv0, _ in pa.state.assumptions) and \
+                hv in (T.mk_call("list", [("mcall", hps[0], "values", (), ())]), ("mcall", hps[0], "values", (), ())):
+            okh = True                    # `if not target: return list(source.values())`: the same selection for an empty target
         ck.judge(bool(okh), "C19.1", short(helper), where(helper, pa.node),
                  "not-matching = values of source whose key is not in target (the complement of the compared rows' test)",
                  found=T.show(hv)[:200], required="[a for k, a in source.items() if k not in target]")
